@@ -616,7 +616,7 @@ func VerifC16_SyncTarget() {
 	rt.Observe("writes", len(wr))
 	for _, r := range wr {
 		rt.Assert(r.Resource == res.Name && r.NS == "ns" && r.Name == "p", "sync/write-to-something-else-than-the-target")
-		rt.Assert(r.Verb == "update", "sync/verb-not-update")
+		rt.Assert(r.IsObjectWrite(), "sync/neither-update-nor-merge-patch")
 		rt.Assert(r.Accepted, "sync/write-rejected-by-server")
 	}
 	if !expectChange {
